@@ -77,14 +77,33 @@ def prec_of(e):
     return P_ATOM
 
 
-def expr_tokens(e, mode='full'):
-    """-> list of token strings."""
+_OMIT = {'k': None, 'count': 0}
+
+
+def expr_tokens(e, mode='full', omit=None):
+    """-> list of token strings.  omit=k leaves out the k-th parenthesis pair that
+    `mode` considers necessary (C11: removing a necessary pair must change the tree)."""
     out = []
-    _expr(e, out, mode)
+    _OMIT['k'] = omit
+    _OMIT['count'] = 0
+    try:
+        _expr(e, out, mode)
+    finally:
+        _OMIT['k'] = None
     return out
 
 
+def count_needed_parens(e, mode='min'):
+    expr_tokens(e, mode, omit=-1)
+    return _OMIT['count']
+
+
 def _wrap(e, out, mode, need):
+    if need and _OMIT['k'] is not None:
+        k = _OMIT['count']
+        _OMIT['count'] += 1
+        if k == _OMIT['k']:
+            need = False
     if need:
         out.append('(')
         _expr(e, out, mode)
